@@ -62,3 +62,24 @@ Proof.
   - exists 0, 1, 1, 0; split; [reflexivity|lra].
   - exists 1, 1, 0, (-1); split; [reflexivity|lra].
 Qed.
+
+(* Rn, any dimension: the bi-invariant mean of N >= 2 points is the first point when that is already within the stopping
+   tolerance of the arithmetic mean (1/N) sum_i X_i, and the arithmetic mean otherwise (at most one update; the budget of two
+   iterations suffices for every input); so the returned m satisfies |mean - m|^2 < e, where mean - m IS the residual
+   (1/N) sum_i log(m^-1 X_i).  The arithmetic mean does not depend on the order of the points and commutes with translation of all
+   points (left and right translation coincide on the commutative group). *)
+From Coq Require Import Permutation.
+From Manif Require Import Rn AvgRn.
+Theorem C16_Rn_biinvariant_is_mean n p q pts e it : pts_ok n (p :: q :: pts) -> 0 < e ->
+  average_biinvariant (Rn RS n) (p :: q :: pts) e (S (S it)) =
+  Ok (if Rltb (@sqnorm RS (@vadd RS (amean n (p :: q :: pts)) (@vneg RS p))) e then p else amean n (p :: q :: pts)).
+Proof. exact (average_biinvariant_rn n p q pts e it). Qed.
+Theorem C16_Rn_stationary n p q pts e it : pts_ok n (p :: q :: pts) -> 0 < e ->
+  exists m, average_biinvariant (Rn RS n) (p :: q :: pts) e (S (S it)) = Ok m /\ @sqnorm RS (@vadd RS (amean n (p :: q :: pts)) (@vneg RS m)) < e.
+Proof. exact (average_biinvariant_rn_stationary n p q pts e it). Qed.
+Theorem C16_Rn_order_independent n pts pts' : Permutation pts pts' -> pts_ok n pts -> amean n pts = amean n pts'.
+Proof. exact (amean_order_independent n pts pts'). Qed.
+Theorem C16_Rn_translation_equivariant n g pts : length g = n -> pts_ok n pts -> pts <> [] ->
+  amean n (map (g_compose (Rn RS n) g) pts) = g_compose (Rn RS n) g (amean n pts).
+Proof. exact (amean_translate n g pts). Qed.
+Print Assumptions C16_Rn_biinvariant_is_mean.
